@@ -15,10 +15,10 @@ def run(ctx):
     binp = snapalg.build()
     run_ = snapalg.Run(ctx)
     if ctx.tier == "quick":
-        fams_laws, fams_a, nb, seeds, par = ["PairQuick", "PairZero", "PairLimitQuick"], ["PairQuick", "PairZero", "PairLimitQuick"], 80, 1, 4
+        fams_laws, fams_a, nb, seeds, par = ["PairQuick", "PairZero", "PairOrderQuick", "PairLimitQuick"], ["PairQuick", "PairZero", "PairOrderQuick", "PairLimitQuick"], 80, 1, 4
     else:
-        fams_laws = ["PairMedium", "PairExplicit", "PairThorough", "PairZero", "PairLimitThorough", "BigPair"]
-        fams_a = ["PairMedium", "PairExplicit", "PairThorough", "PairZero", "PairLimitThorough", "BigPair"]
+        fams_laws = ["PairMedium", "PairExplicit", "PairThorough", "PairZero", "PairOrderThorough", "PairLimitThorough", "BigPair"]
+        fams_a = ["PairMedium", "PairExplicit", "PairThorough", "PairZero", "PairOrderThorough", "PairLimitThorough", "BigPair"]
         nb, seeds, par = 400, 4, 8
     paths = snapalg.run_all(ctx, run_, binp, fams_laws, fams_a, "pair", nb, seeds=seeds, par=par,
                             law_workers=2 if ctx.tier == "quick" else 3)
